@@ -274,7 +274,7 @@ static int do_call(const call_t * c) {
     }
     if (!arena && !len) ASAN_UNPOISON_MEMORY_REGION(base, 1);
     free(base);
-    if ((sh->ncalls & 1023) == 0) alarm(30);
+    if ((sh->ncalls & 1023) == 0) alarm(6);       /* a single conversion takes microseconds: a call that runs for seconds hangs */
     return 1;
 }
 
@@ -600,7 +600,7 @@ static void gen_fmt(long nrandom, int custom_dtostre) {
 
 static int supervise(void (*gen) (long, int), long a, int b, const char * outpath, int nofork, uint64_t seedv) {
     char errpath[512];
-    long crashes = 0;
+    long crashes = 0; int ntimeouts = 0;
     snprintf(errpath, sizeof errpath, "%s.err", outpath);
     outfd = open(outpath, O_WRONLY | O_CREAT | O_TRUNC | O_APPEND, 0644);
     if (outfd < 0) { perror(outpath); return 3; }
@@ -623,7 +623,7 @@ static int supervise(void (*gen) (long, int), long a, int b, const char * outpat
             int efd = open(errpath, O_WRONLY | O_CREAT | O_TRUNC, 0644);
             if (efd >= 0) { dup2(efd, 2); close(efd); }
             rng = seedv; idx = -1;
-            alarm(30);
+            alarm(6);
             gen(a, b);
             flush_obuf();
             sh->finished = 1;
@@ -666,6 +666,11 @@ static int supervise(void (*gen) (long, int), long a, int b, const char * outpat
             }
             if (strstr(sh->desc, "\"m\":\"f\"") && sh->nbad < 256) sh->bad[sh->nbad++] = sh->cur;
             crashes++;
+            if (!strcmp(kind, "timeout") && ++ntimeouts >= 6) {
+                /* every hang costs a watchdog period; six hanging calls are evidence enough */
+                fprintf(stderr, "giving up after repeated watchdog timeouts\n");
+                break;
+            }
             start = sh->cur + 1;
             if (crashes > 200000) { fprintf(stderr, "too many crashes\n"); break; }
         }
